@@ -862,50 +862,76 @@ fn split_runs(e: &Em, ents: &BTreeMap<u32, Ent>) -> Vec<(u32, u32)> {
     runs
 }
 
+/// An existing file (e.g. one written by lopdf) that the revisions are appended to.
+#[derive(Clone, Debug)]
+pub struct Seed {
+    pub bytes: Vec<u8>,
+    /// the `startxref` value of the existing file
+    pub prev_xref: u64,
+    /// highest object number the existing file uses (structural objects included)
+    pub max_num: u32,
+    /// what the existing file defines (user objects only)
+    pub objects: BTreeMap<(u32, u16), MObj>,
+}
+
 pub fn write_history(ctx: &Ctx, revisions: &[Revision], opts: &WriterOpts) -> Written {
+    write_history_on(ctx, None, revisions, opts)
+}
+
+/// Like `write_history`; with a seed every revision is an update appended to the seed's bytes
+/// (`expect[i]` and `layout.revision_ends[i]` then describe the file after update `i`).
+pub fn write_history_on(ctx: &Ctx, seed: Option<&Seed>, revisions: &[Revision], opts: &WriterOpts) -> Written {
     use FieldKind::*;
     let avoid = AVOID.load(Ordering::Relaxed);
     let mut e = Em::new(ctx, opts.freedom.min(2) as usize, opts.raw_cr_eol);
     e.force_zlib = opts.force_structural_zlib;
     let mut layout = Layout::default();
 
+    if let Some(sd) = seed {
+        e.out = sd.bytes.clone();
+        e.open = false;
+    }
     // ---- junk, header, binary comment, further comment lines
-    if opts.leading_junk {
+    if seed.is_none() && opts.leading_junk {
         ctx.count("leading-junk");
         for _ in 0..1 + ctx.draw(SW, 400, "junk-len") {
             let c = ctx.draw(SW, 256, "junk") as u8;
             e.out.push(if c == b'%' { b'$' } else { c }); // no '%', hence no "%PDF-"
         }
     }
-    let base = e.out.len();
-    e.put(b"%PDF-");
-    e.put(opts.version.as_bytes());
-    e.fields.push((base, e.out.len(), Header));
-    e.eol();
-    if !opts.binary_mark.is_empty() {
-        e.put(b"%");
-        e.put(&opts.binary_mark);
+    let base = if seed.is_some() { 0 } else { e.out.len() };
+    if seed.is_none() {
+        e.put(b"%PDF-");
+        e.put(opts.version.as_bytes());
+        e.fields.push((base, e.out.len(), Header));
         e.eol();
-    }
-    for _ in 0..3 {
-        if e.p([0, 100, 300], "header-comment") {
-            e.comment();
+        if !opts.binary_mark.is_empty() {
+            e.put(b"%");
+            e.put(&opts.binary_mark);
+            e.eol();
+        }
+        for _ in 0..3 {
+            if e.p([0, 100, 300], "header-comment") {
+                e.comment();
+            }
         }
     }
 
-    let max_user = revisions.iter().flat_map(|r| r.objects.keys()).map(|k| k.0).max().unwrap_or(0);
+    let max_user = revisions.iter().flat_map(|r| r.objects.keys()).map(|k| k.0).max().unwrap_or(0).max(seed.map_or(0, |sd| sd.max_num));
     let mut next_id = max_user + 1; // structural numbers and Length integers
-    let mut exp: BTreeMap<(u32, u16), MObj> = BTreeMap::new();
+    let mut exp: BTreeMap<(u32, u16), MObj> = seed.map(|sd| sd.objects.clone()).unwrap_or_default();
     let mut structural: Vec<u32> = Vec::new();
     let mut ever_compressed: BTreeSet<u32> = BTreeSet::new();
-    let mut defined: BTreeSet<u32> = BTreeSet::new();
-    let mut max_num: u32 = 0;
-    let mut prev_xref: Option<u64> = None;
+    let mut defined: BTreeSet<u32> = seed.map(|sd| sd.objects.keys().map(|k| k.0).collect()).unwrap_or_default();
+    let mut max_num: u32 = seed.map_or(0, |sd| sd.max_num);
+    let mut prev_xref: Option<u64> = seed.map(|sd| sd.prev_xref);
     let (mut expect, mut structural_ids) = (Vec::new(), Vec::new());
 
     for (ri, rev) in revisions.iter().enumerate() {
         let style = opts.styles.get(ri).or(opts.styles.last()).copied().unwrap_or(XrefStyle::Table);
         let can_compress = style == XrefStyle::Stream && opts.object_streams;
+        // with a seed every revision is an update
+        let ri = if seed.is_some() { ri + 1 } else { ri };
         if ri > 0 {
             e.ensure_eol(); // the previous `%%EOF` may have ended without one
         }
